@@ -268,14 +268,16 @@ def finish(ctx, level, coverage, assumptions, exit_on_done=True):
                 print("KNOWN-FINDING: property=%s %s [%s] %s" % (ctx.prop, hit["id"], v["sig"], hit["what"]))
         else:
             unknown.append(v)
-    rdir = os.path.join(VERIF, "replay", ctx.prop)
+    # runs against a scratch worktree (seeded changes) leave /verif's evidence and replay files alone
+    outdir = VERIF if REPO == "/repo" else os.path.join("/tmp", "verif-out-" + os.path.basename(REPO.rstrip("/")))
+    rdir = os.path.join(outdir, "replay", ctx.prop)
     for v in unknown:
         os.makedirs(rdir, exist_ok=True)
         path = os.path.join(rdir, "%s.json" % sha(v["sig"]))
         with open(path, "w") as fh:
             json.dump({"property": ctx.prop, "signature": v["sig"], "description": v["desc"],
                        "replay": v["replay"], "seed": ctx.seed, "tier": ctx.tier}, fh, indent=1, default=str)
-        print("VIOLATION property=%s replay=%s" % (ctx.prop, os.path.relpath(path, VERIF)))
+        print("VIOLATION property=%s replay=%s" % (ctx.prop, os.path.relpath(path, outdir)))
         print("  signature: %s" % v["sig"])
         print("  %s" % v["desc"][:2000])
     cov = dict(coverage)
@@ -295,8 +297,8 @@ def finish(ctx, level, coverage, assumptions, exit_on_done=True):
         "wall_s": round(time.time() - ctx.t0, 2),
         "violations": len(unknown),
     }
-    os.makedirs(os.path.join(VERIF, "evidence"), exist_ok=True)
-    with open(os.path.join(VERIF, "evidence", ctx.prop + ".json"), "w") as fh:
+    os.makedirs(os.path.join(outdir, "evidence"), exist_ok=True)
+    with open(os.path.join(outdir, "evidence", ctx.prop + ".json"), "w") as fh:
         json.dump(ev, fh, indent=1, default=str)
     ctx.cleanup()
     rc = 1 if unknown else 0
